@@ -240,6 +240,11 @@ class _RecordRun:
                 handle = io.StringIO()
                 SeqIO.write([copy.deepcopy(self.bio)], handle, "genbank")
                 bios = list(SeqIO.parse(io.StringIO(handle.getvalue()), "genbank"))
+                # qualifier values as GenBank text gives them back (a word too long for one line comes back
+                # with a space inside): the full output and the extract are compared in the same representation
+                as_text = [_plain_quals(f.qualifiers) for f in bios[0].features]
+                if [f.type for f in bios[0].features] == [f[0] for f in self.full_features]:
+                    self.full_features = [old[:3] + (new,) for old, new in zip(self.full_features, as_text)]
                 self.full_reloaded = Record.from_biopython(bios[0], self.spec.get("taxon", "bacteria"))
             except Exception:  # pylint: disable=broad-except
                 self.full_reloaded = False
